@@ -38,6 +38,12 @@ structure Env where
   lower : Str → Str
   /-- `time.time()` at flush (ignores.conf only) -/
   now : Nat := 0
+  /-- `ircutils.hostmaskPatternsIntersect(pattern1, pattern2)` -/
+  hx : Str → Str → Bool := fun _ _ => false
+
+/-- the test `setUser` makes between a hostmask of the record being stored and a hostmask of
+another account: `hostmaskPatternEqual(h, o) or hostmaskPatternsIntersect(h, o)` -/
+def Env.hmx (E : Env) (h o : Str) : Bool := E.hm h o || E.hx h o
 
 /-! ## keywords (the Gen tables tie them to the source, see `Props.lean`) -/
 def kwUser : Str := ['u', 's', 'e', 'r']
@@ -317,12 +323,12 @@ def getUserId (E : Env) (users : List (Nat × User)) (s : Str) : List (Nat × Us
     | some p => (users, .found p.1)
     | none => (users, .missing)
 
-/-- the double loop of `setUser`: some hostmask of the new record is matched by, or matches, a
-pattern of another user -/
+/-- the double loop of `setUser`: some hostmask of the new record is matched by, matches, or has a
+hostmask in common with, a pattern of another user -/
 def hostmaskClash (E : Env) (users : List (Nat × User)) (id : Nat) (u : User) : Bool :=
   u.hostmasks.any (fun h =>
     users.any (fun p => p.1 ≠ id &&
-      ((patMatch E p.2 h).isSome || p.2.hostmasks.any (fun o => E.hm h o))))
+      ((patMatch E p.2 h).isSome || p.2.hostmasks.any (fun o => E.hmx h o))))
 
 def hasLineBreak (s : Str) : Bool := s.any (fun c => c = '\n' || c = '\r')
 
